@@ -11,7 +11,7 @@ BOUNDS = {'quick': {'coins held': 'the two reward denominations + one foreign de
           'thorough': {'configured swap_denoms': 'every list of 0..3 entries over 3 denominations (repetitions allowed)'}}
 ASSUMPTIONS = ['balances <= 1e27 and prices in [1e-12, 1e12] (outside: the contract\'s own Uint128 overflow panics)',
                'bonded totals <= 1e18 each and not both zero', 'swap executes at the oracle price (specified stub, C17/C19)']
-OUTSIDE = ['more than one foreign denomination; swap_denoms lists longer than the bound', 'keeper rate configuration (C20)', 'the swap contract delivering less than its simulation']
+OUTSIDE = ['more than one foreign denomination; swap_denoms lists longer than the bound', 'the swap contract delivering less than its simulation']
 BAL = 10 ** 27
 PMIN, PMAX = 10 ** 6, 10 ** 30
 
@@ -180,12 +180,26 @@ OBLIGATIONS = [('swap_to_reward_denom', ob_swap()), ('swap_denoms_1', ob_swap(1)
                ('swap_denoms_3', ob_swap(3)), ('dispatch_rewards', ob_dispatch)]
 
 
+def _keeper_rate_cfg(which):
+    """the keeper rate can never be configured above 1: C20's dispatcher instantiate / UpdateConfig obligations"""
+    def ob(ctx):
+        import checks.c20 as c20
+        return dict(c20.OBLIGATIONS)[which](ctx)
+    return ob
+
+
+OBLIGATIONS += [('keeper_rate_instantiate', _keeper_rate_cfg('dispatcher_instantiate')), ('keeper_rate_update_config', _keeper_rate_cfg('dispatcher_update_config'))]
+
+
 def tier_filter(name, tier):
     return tier == 'thorough' or name not in ('swap_denoms_0', 'swap_denoms_3')
 
 
 def ORACLE(v, scn, out):
     key = v.get('key') or ''
+    if key.startswith('dispatcher_'):
+        from checks.c20 import ORACLE as O20
+        return O20(v, scn, out)
     res = out.get('result', {})
     q = scn['querier']
     bal = {b['denom']: int(b['amount']) for b in q['balances']}
